@@ -910,7 +910,14 @@ def report(ctx, verdict, case, flt, columns, results, source: str) -> None:
         missing, extra = [r for r in exp if r not in got], [r for r in got if r not in exp]
         sub = "rows-missing" if missing and not extra else "rows-extra" if extra and not missing else "rows-missing-and-extra"
         if any(cd[0] == "pair" and cd[2][0] in sqlref.ONE_SHOT_KINDS for _c, cd in flt):
-            sub = "one-shot-value-set-" + sub       # an iterator / generator as value set: consumed by the first reader
+            # an iterator / generator as value set, consumed by the first reader -- if the same filter with LISTS is answered correctly
+            as_lists = [(c, ("pair", cd[1], ("list", list(cd[2][1]))) if cd[0] == "pair" and cd[2][0] in sqlref.ONE_SHOT_KINDS else cd) for c, cd in flt]
+            try:
+                v3, _r3 = evaluate_case(ctx, case, as_lists, columns)
+            except Exception:  # noqa: BLE001
+                v3 = None
+            if v3 is None or v3[0] != key:
+                sub = "one-shot-value-set-" + sub
     ops = sub
     if case.get("tz"):
         source += f"; table written by a process with TZ={case['tz'][0]!r}, read by one with TZ={case['tz'][1]!r}"
